@@ -6,6 +6,7 @@ import (
 	"os"
 	"path/filepath"
 	"sort"
+	"sync/atomic"
 
 	"github.com/tyler-smith/go-bip39"
 
@@ -16,7 +17,15 @@ import (
 
 func init() {
 	airgapped.N = 2 // scrypt cost knob (exported by the product)
+	// in-function yield points of ProcessOperation (hook H2) become gates
+	airgapped.SimYield = func(am *airgapped.Machine, point string) {
+		if w := yieldWorld.Load(); w != nil {
+			w.Gate(point, "")
+		}
+	}
 }
+
+var yieldWorld atomic.Pointer[World]
 
 // AirNode is one participant's airgapped machine (real airgapped.Machine on a
 // real LevelDB directory, real result files).
